@@ -69,18 +69,27 @@ func (s *SessionStore) Load(req *http.Request) (*sessions.SessionState, error) {
 // Clear clears any saved session information by writing a cookie to
 // clear the session
 func (s *SessionStore) Clear(rw http.ResponseWriter, req *http.Request) error {
+	s.clearCookiesExcept(rw, req, nil)
+	return nil
+}
+
+// clearCookiesExcept writes a clearing cookie for every session cookie
+// (CookieName, CookieName_<number>) present on the request whose name is not
+// in the keep set
+func (s *SessionStore) clearCookiesExcept(rw http.ResponseWriter, req *http.Request, keep map[string]struct{}) {
 	// matches CookieName, CookieName_<number>
 	var cookieNameRegex = regexp.MustCompile(fmt.Sprintf("^%s(_\\d+)?$", regexp.QuoteMeta(s.Cookie.Name)))
 
 	for _, c := range req.Cookies() {
+		if _, ok := keep[c.Name]; ok {
+			continue
+		}
 		if cookieNameRegex.MatchString(c.Name) {
 			clearCookie := s.makeCookie(req, c.Name, "", time.Hour*-1)
 
 			http.SetCookie(rw, clearCookie)
 		}
 	}
-
-	return nil
 }
 
 // VerifyConnection always return no-error, as there's no connection
@@ -109,6 +118,17 @@ func (s *SessionStore) setSessionCookie(rw http.ResponseWriter, req *http.Reques
 	if err != nil {
 		return err
 	}
+	// Remove any session cookies left over from a previously saved session
+	// that are not overwritten below (e.g. the unsplit cookie when the session
+	// is now split, or trailing parts when it needs fewer parts): the browser
+	// would otherwise present them and they would shadow or corrupt the
+	// session being saved.
+	written := make(map[string]struct{}, len(cookies))
+	for _, c := range cookies {
+		written[c.Name] = struct{}{}
+	}
+	s.clearCookiesExcept(rw, req, written)
+
 	for _, c := range cookies {
 		http.SetCookie(rw, c)
 	}
